@@ -49,6 +49,35 @@ def obligations(src):
                     c, m, dt = decide(q.pc, z3.And(card_key(back.f[0]) == lo, card_key(back.f[1]) == hi)); nq += 1
                     if c != 'unsat':
                         bad.append(f'{txt!r} parses back to another pair')
+        # both card orders of a four-letter text parse to the same pair = new(c0, c1)   (letters as if-then-else terms over the symbolic cards)
+        from mlib import Int
+        bad2 = []
+        n2 = 0
+
+        def letter(idx, table):
+            t = z3.BitVecVal(ord(table[-1]), 8)
+            for k in range(len(table) - 2, -1, -1):
+                t = z3.If(idx == k, z3.BitVecVal(ord(table[k]), 8), t)
+            return Int(z3.simplify(t), 8)
+        la = [letter(enum_idx(a.f[0]), RANK_CH), letter(enum_idx(a.f[1]), SUIT_CH)]
+        lb = [letter(enum_idx(b.f[0]), RANK_CH), letter(enum_idx(b.f[1]), SUIT_CH)]
+        lo = z3.If(z3.ULT(card_key(a), card_key(b)), card_key(a), card_key(b))
+        hi = z3.If(z3.ULT(card_key(a), card_key(b)), card_key(b), card_key(a))
+        for text in (la + lb, lb + la):
+            for q in run_fn(M, f_parse, [Str(list(text))], cons):
+                n2 += 1
+                if is_panic(q) or q.result.var != 'Ok':
+                    c, m = __import__('mlib').sat_model(q.pc)
+                    if c == z3.sat:
+                        bad2.append('a four-letter text of two distinct cards does not parse'); break
+                    continue
+                back = q.result.f[0]
+                c, m, dt = decide(q.pc, z3.And(card_key(back.f[0]) == lo, card_key(back.f[1]) == hi)); nq += 1
+                if c != 'unsat':
+                    bad2.append('a card order of the text parses to another pair'); break
+        obs.append(Obligation('text-both-orders', 'holds' if not bad2 else 'violated', '; '.join(bad2[:3]) or f'{n2} paths: both card orders of every two-card text parse to new(c0, c1)',
+                              cex=dict(reproduced=True, detail=bad2[:5]) if bad2 else None, key='text-order', queries=nq, wall_s=time.time() - t0,
+                              extra=dict(engine='mirx', description='<CardPair as FromStr>::from_str on symbolic four-letter texts in both card orders')))
         obs.append(Obligation('display-roundtrip', 'holds' if not bad else 'violated', '; '.join(bad[:3]) or f'{npaths} paths covering all 52x51 ordered constructions: text = the two card texts in canonical order, parses back to the same pair',
                               cex=dict(reproduced=True, detail=bad[:5]) if bad else None, key='display-text', queries=nq + M.nq, solver_s=M.qtime, wall_s=time.time() - t0,
                               extra=dict(engine='mirx', description='CardPair::new, <CardPair as Display>::fmt, <CardPair as FromStr>::from_str on symbolic cards')))
